@@ -28,6 +28,15 @@ def source_ordering(ctx):
     vlib.proof_phase_extra(ctx, 'Properties_core_source')
 
 
+# properties that rest on the call-time walk of core.hpp (resolve_uni / resolve_multi_first / resolve_multi_next):
+# translators/walk.py -> Gen/GenWalk.v -> Properties_walk_source
+SOURCE_WALK = ('C01', 'C04', 'C12')
+
+
+def source_walk(ctx):
+    vlib.proof_phase_extra(ctx, 'Properties_walk_source')
+
+
 def main(pid, assumptions, level='proof', explanation=None):
     ctx = vlib.Ctx(pid)
     if ctx.replay:
@@ -36,6 +45,8 @@ def main(pid, assumptions, level='proof', explanation=None):
     vlib.proof_phase(ctx)
     if pid in SOURCE_ORDERING:
         source_ordering(ctx)
+    if pid in SOURCE_WALK:
+        source_walk(ctx)
     res = coresuite.dispatch_suite(ctx.tier, ctx.seed)
     cov = coresuite.summarize(ctx, res, pid)
     if ctx.broken and not ctx.violations:
